@@ -167,13 +167,23 @@ func StructToMap(data any) map[string]any {
 	if rv.Kind() != reflect.Struct {
 		return result
 	}
+	return structValueToMap(rv)
+}
 
+// structValueToMap is StructToMap for a struct value that is already at hand.
+func structValueToMap(rv reflect.Value) map[string]any {
+	result := make(map[string]any)
 	rt := rv.Type()
 	byName := map[string]any{}
+	var embedded []map[string]any
 	for i := range rt.NumField() {
 		f := rt.Field(i)
 		// Only export fields
 		if !f.IsExported() {
+			// ... but an embedded struct of an unexported type still promotes its exported fields
+			if ev, ok := embeddedStruct(f, rv.Field(i)); ok {
+				embedded = append(embedded, structValueToMap(ev))
+			}
 			continue
 		}
 
@@ -199,12 +209,41 @@ func StructToMap(data any) map[string]any {
 		if tagName != f.Name {
 			byName[f.Name] = fieldValue
 		}
+		if f.Anonymous {
+			if promoted, ok := fieldValue.(map[string]any); ok {
+				embedded = append(embedded, promoted)
+			}
+		}
+	}
+	// The fields of an embedded struct are fields of the outer struct too, unless it declares the name itself
+	for _, promoted := range embedded {
+		for name, value := range promoted {
+			if _, declared := result[name]; !declared {
+				if _, declared := byName[name]; !declared {
+					result[name] = value
+				}
+			}
+		}
 	}
 	// A field is also addressed by its Go name, which wins over another field's tag (as in ResolveValue)
 	for name, value := range byName {
 		result[name] = value
 	}
 	return result
+}
+
+// embeddedStruct returns the struct value of an embedded (anonymous) field, through a non-nil pointer.
+func embeddedStruct(f reflect.StructField, fv reflect.Value) (reflect.Value, bool) {
+	if !f.Anonymous {
+		return fv, false
+	}
+	for fv.Kind() == reflect.Ptr {
+		if fv.IsNil() {
+			return fv, false
+		}
+		fv = fv.Elem()
+	}
+	return fv, fv.Kind() == reflect.Struct
 }
 
 // PopulateStructFields adds exported struct fields to the map using JSON tags.
@@ -229,10 +268,16 @@ func PopulateStructFields(m map[string]any, data any) {
 
 	rt := rv.Type()
 	byName := map[string]any{}
+	own := map[string]bool{}
+	var embedded []map[string]any
 	for i := range rt.NumField() {
 		f := rt.Field(i)
 		// Only export fields
 		if !f.IsExported() {
+			// ... but an embedded struct of an unexported type still promotes its exported fields
+			if ev, ok := embeddedStruct(f, rv.Field(i)); ok {
+				embedded = append(embedded, structValueToMap(ev))
+			}
 			continue
 		}
 
@@ -256,8 +301,24 @@ func PopulateStructFields(m map[string]any, data any) {
 
 		// Add the field itself (for path resolution like item.inStock)
 		m[tagName] = fieldValue
+		own[tagName] = true
 		if tagName != f.Name {
 			byName[f.Name] = fieldValue
+		}
+		if f.Anonymous {
+			if promoted, ok := fieldValue.(map[string]any); ok {
+				embedded = append(embedded, promoted)
+			}
+		}
+	}
+	// The fields of an embedded struct are fields of the outer struct too, unless it declares the name itself
+	for _, promoted := range embedded {
+		for name, value := range promoted {
+			if !own[name] {
+				if _, declared := byName[name]; !declared {
+					m[name] = value
+				}
+			}
 		}
 	}
 	// A field is also addressed by its Go name, which wins over another field's tag (as in ResolveValue)
